@@ -173,8 +173,6 @@ func classify(err error) string {
 	return "error"
 }
 
-var libFrame = regexp.MustCompile(`(seehuhn\.de/go/[^\s(]+(?:\([^)]*\))?[^\s(]*)\(`)
-
 // libFunc extracts the innermost function of the library from a stack trace.
 func libFunc(stack string) string {
 	for _, line := range strings.Split(stack, "\n") {
